@@ -366,7 +366,13 @@ func (c *Ctx) PIPE(rule string, only func(Stage) bool) []report.Obligation {
 	if len(flags) < 8 {
 		out = append(out, anchorViolation(rule, "boolean fields of loader.Options"))
 	}
-	var prevCall ssa.CallInstruction
+	// a stage is called in the pipeline function itself, or in a named step the pipeline function was split into:
+	// outer is the call in the pipeline function, inner the stage call inside the step (nil when direct)
+	type stageSite struct {
+		outer, inner ssa.CallInstruction
+		helper       *ssa.Function
+	}
+	var prev *stageSite
 	prevIn := ""
 	used := map[ssa.Instruction]bool{}
 	for _, st := range pipeStages {
@@ -380,19 +386,40 @@ func (c *Ctx) PIPE(rule string, only func(Stage) bool) []report.Obligation {
 			out = append(out, anchorViolation(rule, st.In))
 			continue
 		}
-		var sites []ssa.CallInstruction
-		if st.Callee != "" {
-			sites = c.callsTo(fn, st.Callee)
-		} else {
-			sites = callSites(fn, func(com *ssa.CallCommon) bool { return com.IsInvoke() && com.Method.Name() == st.Method })
+		sitesIn := func(f *ssa.Function) []ssa.CallInstruction {
+			var sites []ssa.CallInstruction
+			if st.Callee != "" {
+				sites = c.callsTo(f, st.Callee)
+			} else {
+				sites = callSites(f, func(com *ssa.CallCommon) bool { return com.IsInvoke() && com.Method.Name() == st.Method })
+			}
+			sort.Slice(sites, func(i, j int) bool { return sites[i].Pos() < sites[j].Pos() })
+			return sites
 		}
 		// take the first site not yet used (EnforceUnicity appears twice)
-		var site ssa.CallInstruction
-		sort.Slice(sites, func(i, j int) bool { return sites[i].Pos() < sites[j].Pos() })
-		for _, s := range sites {
+		var site *stageSite
+		for _, s := range sitesIn(fn) {
 			if !used[s] {
-				site = s
+				site = &stageSite{outer: s}
 				break
+			}
+		}
+		if site == nil {
+			steps := callSites(fn, func(com *ssa.CallCommon) bool {
+				cal := com.StaticCallee()
+				return cal != nil && c.P.InModule(cal) && cal.Blocks != nil && cal != fn && strings.HasPrefix(c.P.FuncID(cal), "loader.")
+			})
+			sort.Slice(steps, func(i, j int) bool { return steps[i].Pos() < steps[j].Pos() })
+			for _, o := range steps {
+				h := o.Common().StaticCallee()
+				if c.P.Func(c.P.FuncID(h)) != nil && isPipeFunc(c.P.FuncID(h)) {
+					continue // another pipeline function: its stages are checked there
+				}
+				for _, s := range sitesIn(h) {
+					if !used[s] && site == nil {
+						site = &stageSite{outer: o, inner: s, helper: h}
+					}
+				}
 			}
 		}
 		if site == nil {
@@ -401,13 +428,22 @@ func (c *Ctx) PIPE(rule string, only func(Stage) bool) []report.Obligation {
 			}
 			continue
 		}
-		used[site] = true
+		at := site.outer
+		if site.inner != nil {
+			at = site.inner
+		}
+		used[at] = true
 		if prevIn != st.In {
-			prevCall = nil
+			prev = nil
 		}
 		if only == nil || only(st) {
 			// gate
-			got := c.flagFacts(site.Block(), flags)
+			got := c.flagFacts(site.outer.Block(), flags)
+			if site.inner != nil {
+				for f, v := range c.flagFacts(site.inner.Block(), flags) {
+					got[f] = v
+				}
+			}
 			var extra []string
 			for f, v := range got {
 				if f != st.Flag {
@@ -417,44 +453,69 @@ func (c *Ctx) PIPE(rule string, only func(Stage) bool) []report.Obligation {
 			sort.Strings(extra)
 			switch {
 			case st.Flag == "" && len(got) == 0:
-				out = append(out, ok(rule+"-gate", key+" unconditional", c.P.InstrPos(site), "runs whatever the options are"))
+				out = append(out, ok(rule+"-gate", key+" unconditional", c.P.InstrPos(at), "runs whatever the options are"))
 			case st.Flag == "":
-				out = append(out, bad(rule+"-gate", key+" unconditional", c.P.InstrPos(site), "the stage became conditional on "+strings.Join(extra, ", ")))
+				out = append(out, bad(rule+"-gate", key+" unconditional", c.P.InstrPos(at), "the stage became conditional on "+strings.Join(extra, ", ")))
 			default:
 				v, has := got[st.Flag]
 				switch {
 				case !has:
-					out = append(out, bad(rule+"-gate", key+" gated by "+st.Flag, c.P.InstrPos(site), "the stage is not gated by its option "+st.Flag+": it cannot be switched off (or on) as documented"))
+					out = append(out, bad(rule+"-gate", key+" gated by "+st.Flag, c.P.InstrPos(at), "the stage is not gated by its option "+st.Flag+": it cannot be switched off (or on) as documented"))
 				case v != st.When:
-					out = append(out, bad(rule+"-gate", key+" gated by "+st.Flag, c.P.InstrPos(site), fmt.Sprintf("the stage runs when %s=%v, expected %v (inverted gate)", st.Flag, v, st.When)))
+					out = append(out, bad(rule+"-gate", key+" gated by "+st.Flag, c.P.InstrPos(at), fmt.Sprintf("the stage runs when %s=%v, expected %v (inverted gate)", st.Flag, v, st.When)))
 				case len(extra) > 0:
-					out = append(out, bad(rule+"-gate", key+" gated by "+st.Flag, c.P.InstrPos(site), "the stage additionally depends on "+strings.Join(extra, ", ")))
+					out = append(out, bad(rule+"-gate", key+" gated by "+st.Flag, c.P.InstrPos(at), "the stage additionally depends on "+strings.Join(extra, ", ")))
 				default:
-					out = append(out, ok(rule+"-gate", key+" gated by "+st.Flag, c.P.InstrPos(site), fmt.Sprintf("reachable exactly on the %s=%v edge (besides earlier error exits)", st.Flag, st.When)))
+					out = append(out, ok(rule+"-gate", key+" gated by "+st.Flag, c.P.InstrPos(at), fmt.Sprintf("reachable exactly on the %s=%v edge (besides earlier error exits)", st.Flag, st.When)))
 				}
 			}
-			// error propagated
-			if okp, why := c.errPropagated(site); okp {
-				out = append(out, ok(rule+"-err", key+" error propagated", c.P.InstrPos(site), why))
+			// error propagated (through the step, when there is one)
+			okp, why := c.errPropagated(at)
+			if okp && site.inner != nil {
+				okp, why = c.errPropagated(site.outer)
+				why = "out of the step " + c.P.FuncID(site.helper) + " and then: " + why
+			}
+			if okp {
+				out = append(out, ok(rule+"-err", key+" error propagated", c.P.InstrPos(at), why))
 			} else {
-				out = append(out, bad(rule+"-err", key+" error propagated", c.P.InstrPos(site), "the stage's error is dropped: "+why))
+				out = append(out, bad(rule+"-err", key+" error propagated", c.P.InstrPos(at), "the stage's error is dropped: "+why))
 			}
 			// order
-			if prevCall != nil {
-				pk := "order " + st.In + " :: " + c.stageName(prevCall) + " < " + name
+			if prev != nil {
+				prevAt := prev.outer
+				if prev.inner != nil {
+					prevAt = prev.inner
+				}
+				pk := "order " + st.In + " :: " + c.stageName(prevAt) + " < " + name
+				// compare where both are visible: inside the same step, or in the pipeline function
+				a, b2, in := prev.outer, site.outer, fn
+				if prev.inner != nil && site.inner != nil && prev.outer == site.outer {
+					a, b2, in = prev.inner, site.inner, site.helper
+				}
 				switch {
-				case reachesInstr(site, prevCall) && !prog.Info(fn).InLoop(site.Block()):
-					out = append(out, bad(rule+"-order", pk, c.P.InstrPos(site), "the later stage can run before the earlier one"))
-				case !reachesInstr(prevCall, site):
-					out = append(out, bad(rule+"-order", pk, c.P.InstrPos(site), "no path runs the two stages in the documented order"))
+				case a == b2:
+					out = append(out, bad(rule+"-order", pk, c.P.InstrPos(at), "the two stages are reached through one call and cannot be ordered"))
+				case reachesInstr(b2, a) && !prog.Info(in).InLoop(b2.Block()):
+					out = append(out, bad(rule+"-order", pk, c.P.InstrPos(at), "the later stage can run before the earlier one"))
+				case !reachesInstr(a, b2):
+					out = append(out, bad(rule+"-order", pk, c.P.InstrPos(at), "no path runs the two stages in the documented order"))
 				default:
-					out = append(out, ok(rule+"-order", pk, c.P.InstrPos(site), "every path that runs both runs them in this order"))
+					out = append(out, ok(rule+"-order", pk, c.P.InstrPos(at), "every path that runs both runs them in this order"))
 				}
 			}
 		}
-		prevCall, prevIn = site, st.In
+		prev, prevIn = site, st.In
 	}
 	return out
+}
+
+func isPipeFunc(id string) bool {
+	for _, st := range pipeStages {
+		if st.In == id {
+			return true
+		}
+	}
+	return false
 }
 
 func (c *Ctx) stageName(ci ssa.CallInstruction) string {
